@@ -5,7 +5,7 @@ import re
 from ..authz import GuardAnalysis
 from ..callgraph import explore, storage_effects, message_effects, call_sites
 from ..expr import show, find, DEFAULT
-from ..ledger import ledger_entries, classify
+from ..ledger import ledger_entries, classify, stale_reads
 from .common import entry, msg_enum, variant_env, stored, where, arm_handler
 from .C10 import mk_pass, BSHUB, STHUB, TOKINFO
 from .msgs import wasm_execute
@@ -50,6 +50,8 @@ def run(prog, world, sem, rep):
     rep.rule("C18.a", "ledger conservation by shape: for every cw20-legacy (bSei) message variant the balance writes are deltas on the "
              "expected accounts whose signed sum equals the total_supply delta with the same amount; instantiate credits initial "
              "balances additively and reports their sum as supply (no absolute overwrite of a possibly existing balance)", 12)
+    rep.rule("C18.g", "read-modify-write discipline of the bSei ledger: no balance / supply value is saved that was computed from a load which "
+             "another write to the same map may have made stale (keys can alias: sender == recipient)", 9)
     rep.rule("C18.b", "only the hub mints and burns: bSei Mint behind sender == TokenInfo.mint.minter, bSei Burn and stSei Burn behind "
              "sender == hub cell", 3)
     rep.rule("C18.d", "allowance-based operations deduct the allowance first (dominating every ledger write), for the same owner / "
@@ -91,6 +93,11 @@ def run(prog, world, sem, rep):
             bad.append("sum of balance deltas %+d differs from supply delta %+d" % (sum(s for s, _ in deltas), supply))
         if len(amounts) > 1 or (amounts and not all(a is not None and a[0] == "param" and a[4] == ("amount",) for a in amounts)):
             bad.append("ledger deltas do not all use the message amount: %s" % sorted(map(str, amounts)))
+        st = stale_reads(sem, eff, LEDGER)
+        rep.ob("C18.g", "bsei::%s ledger updates are atomic read-modify-writes" % v, not st,
+               "a ledger value saved at %s was computed from a load at line %d although another write to the same map happens in between (line %d): if the keys coincide the second save overwrites the first with a stale value" % (
+                   where(st[0][0].body, st[0][1]), st[0][0].body.blocks[st[0][2]].term.line, st[0][0].body.blocks[st[0][3]].term.line) if st else
+               "every saved ledger value is computed from a fresh read", where(ex), key="C18.g | bsei::%s" % v)
         rep.ob("C18.a", "bsei::%s ledger signature" % v, not bad, "; ".join(bad) if bad else
                "deltas %s supply %+d amount msg.amount" % (sorted(deltas), supply), where(ex), key="C18.a | bsei::%s" % v)
 
@@ -227,15 +234,27 @@ def run(prog, world, sem, rep):
         ok = False
         detail = "anchor-lost: handler not found"
         if handler is not None:
+            from .C17 import push_sequences
             oks = [x for (bb, idx, kind, x) in sem.ret_sites(handler.be) if kind == "ok" and bb in handler.blocks]
             ok = bool(oks)
+            n_seq = 0
             for x in oks:
                 rx = handler.resolve(x)
-                hits = [m for m in find(rx, lambda y: y.op == "adt" and y.info[0].endswith("WasmMsg") and y.info[1] == "Execute")
-                        if _is_check_slashing(world, sem, m, cell)]
-                if not hits:
+                lists = find(rx, lambda y: y.op == "call" and y.info in ("cosmwasm_std::Response::add_submessages", "cosmwasm_std::Response::add_messages"))
+                if not lists:
                     ok = False
-            detail = "every Ok response carries CheckSlashing to the hub cell" if ok else "an Ok response of %s lacks the CheckSlashing message to %s" % (handler.body.path, cell)
+                for l in lists:
+                    for s in push_sequences(world, l.args[1]):
+                        n_seq += 1
+                        hit = False
+                        for el in s:
+                            for m in find(world.norm(el), lambda y: y.op == "adt" and y.info[0].endswith("WasmMsg") and y.info[1] == "Execute"):
+                                if _is_check_slashing(world, sem, m, cell):
+                                    hit = True
+                        if not hit:
+                            ok = False
+            detail = "every success path (%d message sequence(s)) carries CheckSlashing to the hub cell" % n_seq if ok else \
+                "a success path of %s emits no CheckSlashing message to %s" % (handler.body.path, cell)
         rep.ob("C18.e", "%s::%s refreshes hub rates" % (c, v), ok, detail, where(handler.body) if handler else where(e2))
 
     # ---------------------------------------------------------------- C18.f
